@@ -206,10 +206,24 @@ var badCursors = []string{"x", "%00", "e30", "bnVsbA", b64(`{"offset":"x"}`), b6
 
 var badParams = []string{"sort=reference", "sort=metadata:desc", "sort=type", "sort=balance", "sort=reverted:asc", "pageSize=abc", "pageSize=-1", "pageSize=99999999999999999999", "pageSize=0", "pit=notadate", "pit=2024-13-45T99:00:00Z", "oot=1", "pit=&oot=%ff",
 	"expand=volumes,foo", "sort=bad:sideways", "sort=:desc", "sort=id:asc", "query=%7B", "query=12", "query=%7B%22%24match%22%3A%7B%22id%22%3A%22x%22%7D%7D", "after=abc", "start_time=bad", "end_time=bad",
-	"pagination_token=zzz", "page_size=x", "reference=%00", "metadata[a]=b", "startTime=x", "endTime=y", "insertedAt=z", "useInsertionDate=maybe", "dryRun=2", "force=x"}
+	"pagination_token=zzz", "page_size=x", "reference=%00", "metadata[a]=b", "startTime=x", "endTime=y", "insertedAt=z", "useInsertionDate=maybe", "dryRun=2", "force=x",
+	"pit=2000-01-01T00:00:00Z", "expand=volumes", "expand=effectiveVolumes", "useInsertionDate=true", "groupBy=1", "groupBy=x", "groupBy=-1", "startTime=1999-01-01T00:00:00Z", "endTime=2001-01-01T00:00:00Z", "insertionDate=true",
+	"address=u:", "address=%00", "balance=5", "balanceOperator=nope", "balanceOperator=gte", "account=world", "source=u:1", "destination=%ff", "after=3", "metadata[k]=v"}
 
 var badQueryBodies = []string{"{", "12", "[]", `"x"`, `{"$match":12}`, `{"$match":{"id":{"a":1}}}`, `{"$and":{}}`, `{"$or":[1,2]}`, `{"$lt":{"id":"x"}}`, `{"$nope":{"id":1}}`,
 	`{"$match":{"id":1},"$gt":{"id":2}}`, `{"$and":[{"$match":{"id":1}},{"$not":12}]}`, `{"$in":{"id":5}}`, `{"$exists":{"metadata[k]":"maybe"}}`, `null`}
+
+// fieldFilters: filters on fields the resources really have, well-typed and type-confused. In the real-SQL
+// runs the storage layer's own filter validation and SQL building (resource_*.go ResolveFilter, the schema
+// check of storage/common) runs on them, and the interpreter executes the simple ones.
+var fieldFilters = []string{`{"$lt":{"balance":100}}`, `{"$gt":{"balance[USD]":0}}`, `{"$gt":{"balance[USD]":"x"}}`, `{"$match":{"balance[USD]":{"a":1}}}`, `{"$gte":{"balance[]":1}}`,
+	`{"$match":{"address":"u:"}}`, `{"$match":{"address":12}}`, `{"$match":{"address":"u:1:"}}`, `{"$match":{"address":":"}}`, `{"$in":{"address":["world","bank"]}}`, `{"$in":{"address":[1,{}]}}`, `{"$like":{"address":"u%"}}`,
+	`{"$match":{"metadata[k]":"v"}}`, `{"$match":{"metadata[k]":1}}`, `{"$match":{"metadata[]":"v"}}`, `{"$exists":{"metadata":"k"}}`, `{"$exists":{"metadata":1}}`, `{"$exists":{"metadata[k]":true}}`,
+	`{"$match":{"first_usage":"notadate"}}`, `{"$lt":{"first_usage":"2000-01-01T00:00:00Z"}}`, `{"$gte":{"insertion_date":12}}`, `{"$lt":{"updated_at":null}}`,
+	`{"$gte":{"timestamp":"x"}}`, `{"$lt":{"timestamp":"2000-01-01T00:00:00Z"}}`, `{"$match":{"reference":12}}`, `{"$match":{"reference":"ref-0"}}`, `{"$match":{"reverted":"maybe"}}`, `{"$match":{"reverted":true}}`,
+	`{"$match":{"account":"u:1"}}`, `{"$match":{"source":"world"}}`, `{"$match":{"destination":12}}`, `{"$match":{"id":"x"}}`, `{"$lt":{"id":2}}`, `{"$match":{"id":1.5}}`, `{"$match":{"id":-1}}`, `{"$match":{"id":99999999999999999999}}`,
+	`{"$match":{"type":"NEW_TRANSACTION"}}`, `{"$match":{"date":"x"}}`, `{"$gte":{"date":"2000-01-01T00:00:00Z"}}`, `{"$match":{"ledger":"l2"}}`, `{"$match":{"inserted_at":"x"}}`,
+	`{"$and":[{"$match":{"address":"u:"}},{"$gt":{"balance[USD]":0}}]}`, `{"$or":[{"$match":{"metadata[k]":"v"}},{"$lt":{"balance":5}}]}`, `{"$not":{"$match":{"address":"world"}}}`, `{"$not":{"$exists":{"metadata":"k"}}}`}
 
 // fuzzRead: read routes whose query string, cursor and body are decided by the API layer (dates, page
 // sizes, cursors, query JSON). Filters are checked by SQL-building storage code that is not in the
@@ -217,7 +231,7 @@ var badQueryBodies = []string{"{", "12", "[]", `"x"`, `{"$match":12}`, `{"$match
 func fuzzRead(r *RNG) Request {
 	path := Pick(r, []string{"/v2/l1/transactions", "/v2/l1/accounts", "/v2/l1/logs", "/v2/l1/schemas", "/v2", "/l1/transactions", "/l1/accounts", "/l1/logs",
 		"/v2/l1/transactions/abc", "/v2/l1/transactions/99999999999999999999999", "/v2/l1/transactions/-1", "/l1/transactions/1.5", "/v2/l1/accounts/a b", "/v2/l1/accounts/%ff", "/l1/accounts/é:漢",
-		"/v2/l1/transactions/3", "/v2/l1/accounts/world", "/v2/l1/schemas/%00", "/v2/l1", "/v2/l1/_info", "/l1/_info", "/v2/l1/logs/export", "/v2/%20", "/v2/" + strings.Repeat("n", 300)})
+		"/v2/l1/transactions/3", "/v2/l1/accounts/world", "/v2/l1/volumes", "/v2/l1/aggregate/balances", "/l1/balances", "/l1/aggregate/balances", "/v2/l1/transactions", "/v2/l1/accounts", "/v2/l1/logs", "/v2/l1/schemas/%00", "/v2/l1", "/v2/l1/_info", "/l1/_info", "/v2/l1/logs/export", "/v2/%20", "/v2/" + strings.Repeat("n", 300)})
 	method := "GET"
 	if r.Chance(0.15) {
 		method = Pick(r, []string{"HEAD", "DELETE", "PATCH", "PUT", "OPTIONS", "POST"})
@@ -240,6 +254,8 @@ func fuzzRead(r *RNG) Request {
 	req := Request{Method: method, Path: path, Header: map[string]string{"Content-Type": "application/json"}}
 	if r.Chance(0.3) {
 		req.Body = Pick(r, badQueryBodies)
+	} else if r.Chance(0.5) {
+		req.Body = Pick(r, fieldFilters)
 	}
 	return req
 }
